@@ -309,6 +309,39 @@ func checkIndexes(t *tree.Tree, m *ref.Node) error {
 			return fmt.Errorf("TopoDepth %d, expected %d", d, k)
 		}
 	}
+	// node depths ("length of the path from n to the closest tip", computed with the indexes):
+	// judged on unrooted trees, where the documented definition leaves no choice
+	if t.Root().Nneigh() >= 3 {
+		dist := map[*tree.Node]int{}
+		var level []*tree.Node
+		for _, n := range t.Nodes() {
+			if n.Tip() {
+				dist[n] = 0
+				level = append(level, n)
+			}
+		}
+		for len(level) > 0 {
+			var next []*tree.Node
+			for _, n := range level {
+				for _, nb := range n.Neigh() {
+					if _, ok := dist[nb]; !ok {
+						dist[nb] = dist[n] + 1
+						next = append(next, nb)
+					}
+				}
+			}
+			level = next
+		}
+		for _, n := range t.Nodes() {
+			d, err := n.Depth()
+			if err != nil {
+				return fmt.Errorf("Node.Depth() on a freshly generated tree: %v", err)
+			}
+			if d != dist[n] {
+				return fmt.Errorf("Node.Depth() = %d for a node whose closest tip is %d branches away (node %q, %d neighbours)", d, dist[n], n.Name(), n.Nneigh())
+			}
+		}
+	}
 	return nil
 }
 
@@ -438,7 +471,7 @@ func TestC16Generators(t *testing.T) {
 	}
 	h.Run(t, h.Spec[Case]{
 		Property: "C16", Name: "generators", Quick: 12000, Thorough: 320000,
-		Rule: "6 generators (uniform, Yule, caterpillar, balanced, star, star from names) x sizes -1..60 (thorough 400; depth -1..7/10) with a quarter of the cases at -1..4 x rooted x seed; valid sizes must succeed and give a structurally well-formed binary tree (root degree 2 or 3 as requested) with exactly n uniquely named tips, all lengths present and >= 0, TipIndex/bitsets/TopoDepth correct without further calls, caterpillar (inner nodes form a path) / perfectly balanced / single-inner-node shape; sizes below the documented minimum must be refused with an error; 2 tips unrooted (no binary unrooted tree exists) may be refused or not but must not crash; 5% of the cases through `gotree generate ... --seed -n -l/-d [-r]` (exit status, number of trees, shape, no Go panic trace); non-trivial = valid size with >= 5 tips",
+		Rule: "6 generators (uniform, Yule, caterpillar, balanced, star, star from names) x sizes -1..60 (thorough 400; depth -1..7/10) with a quarter of the cases at -1..4 x rooted x seed; valid sizes must succeed and give a structurally well-formed binary tree (root degree 2 or 3 as requested) with exactly n uniquely named tips, all lengths present and >= 0, TipIndex/bitsets/TopoDepth and (unrooted trees) node depths correct without further calls, caterpillar (inner nodes form a path) / perfectly balanced / single-inner-node shape; sizes below the documented minimum must be refused with an error; 2 tips unrooted (no binary unrooted tree exists) may be refused or not but must not crash; 5% of the cases through `gotree generate ... --seed -n -l/-d [-r]` (exit status, number of trees, shape, no Go panic trace); non-trivial = valid size with >= 5 tips",
 		Gen: genCase, Check: check, Anchors: anchors,
 		Classify: func(c Case) (bool, []string) {
 			e := expectation(c)
@@ -484,6 +517,10 @@ func checkEnum(c EnumCase) (int, error) {
 		}
 		return 0, nil
 	}
+	mismatch := len(c.Names) > 0 && len(c.Names) != c.N
+	if mismatch && err != nil {
+		return 0, nil // a name list of another length than the requested size: refused
+	}
 	if err != nil {
 		return 0, fmt.Errorf("AllTopologies(%d, rooted=%v) failed: %v", c.N, c.Rooted, err)
 	}
@@ -511,7 +548,12 @@ func checkEnum(c EnumCase) (int, error) {
 		}
 		names := m.Tips()
 		sort.Strings(names)
-		if strings.Join(names, ",") != strings.Join(wantNames, ",") {
+		if mismatch {
+			// not refused: then it must still be the complete enumeration on c.N tips
+			if len(names) != c.N {
+				return len(trees), fmt.Errorf("AllTopologies(%d, rooted=%v, %d names) is not refused and topology %d has %d tips (%s)", c.N, c.Rooted, len(c.Names), i, len(names), text)
+			}
+		} else if strings.Join(names, ",") != strings.Join(wantNames, ",") {
 			return len(trees), fmt.Errorf("topology %d has tips %v, requested %v", i, names, wantNames)
 		}
 		var canon string
@@ -547,7 +589,7 @@ func checkEnum(c EnumCase) (int, error) {
 }
 
 func TestC16Enumerator(t *testing.T) {
-	r := h.NewRecorder(t, "C16", "enumerator", "AllTopologies(n, rooted) for every n from 0 up to the largest n with <= 10395 (quick) / 135135 (thorough) topologies, default and caller-given tip names: count = (2n-5)!! unrooted / (2n-3)!! rooted, every tree binary on the requested names, canonical forms (split sets / nested clades of the reference reading) pairwise distinct; sizes below the minimum refused; plus `gotree generate topologies -l n [-r]` for n <= 6; non-trivial = enumeration with >= 15 topologies")
+	r := h.NewRecorder(t, "C16", "enumerator", "AllTopologies(n, rooted) for every n from 0 up to the largest n with <= 10395 (quick) / 135135 (thorough) topologies, default and caller-given tip names: count = (2n-5)!! unrooted / (2n-3)!! rooted, every tree binary on the requested names, canonical forms (split sets / nested clades of the reference reading) pairwise distinct; sizes below the minimum refused; name lists of another length than n (1, n-1, n+1, 2n names) refused or else the complete enumeration on n tips, never a crash; plus `gotree generate topologies -l n [-r]` for n <= 6; non-trivial = enumeration with >= 15 topologies")
 	var c EnumCase
 	if replaying, mine := r.ReplayCase(&c); replaying {
 		if mine {
@@ -593,6 +635,28 @@ func TestC16Enumerator(t *testing.T) {
 				if err != nil {
 					r.Fail(c, "%v", err)
 					return
+				}
+				if named && n <= 6 {
+					// name lists of another length than the requested size: refused, or ignored - never a
+					// crash or a partial enumeration
+					for _, k := range []int{1, n - 1, n + 1, 2 * n} {
+						if k < 1 || k == n {
+							continue
+						}
+						mc := EnumCase{N: n, Rooted: rooted}
+						for i := 0; i < k; i++ {
+							mc.Names = append(mc.Names, fmt.Sprintf("m%d", i))
+						}
+						err := r.Guard(mc, 120e9, func() error {
+							_, err := checkEnum(mc)
+							r.Eval(mc, false, "name-count-mismatch")
+							return err
+						})
+						if err != nil {
+							r.Fail(mc, "%v", err)
+							return
+						}
+					}
 				}
 			}
 		}
